@@ -1,6 +1,7 @@
 (* Decoding of C11 cases and verdicts. *)
 From Coq Require Import List NArith Bool.
-From FS Require Import Sx Model.Path Model.Stat Model.Tree Model.Hardlinks Model.Validator Model.Converge.
+From FS Require Import Sx Model.Path Model.Stat Model.Tree Model.Pattern Model.FilterWalk
+  Model.Hardlinks Model.Validator Model.Converge Model.SenderView Glue.C10G.
 Import ListNotations.
 Open Scope bool_scope.
 
@@ -58,9 +59,14 @@ Fixpoint content_of (p : list N) (l : list entry) : list N :=
   | e :: r => if bytes_eqb p (st_path (fst e)) then snd e else content_of p r
   end.
 
+(* the case lies in the late-shadow domain of the incremental matcher (C10, known finding K1):
+   some path of the view violates no_late_shadow for the real library's answers *)
+Definition in_late_shadow_domain (pm : bytes -> bytes -> bool) (c : cfg) (view : list node) : bool :=
+  negb (forallb (fun e : entry => nls_path pm c (st_path (fst e))) (walk_root view)).
+
 Definition run_1102 (input impl : sx) : sx :=
   match input, impl with
-  | SL (v :: _), SL [SN se; SN re; SN hung; stl; dr; ops] =>
+  | SL [v; inc; exc], SL [SN se; SN re; SN hung; stl; dr; ops; pt] =>
     match dec_view v, sx_list dec_stat stl, sx_list dec_raw dr, sx_list dec_open ops with
     | Some view, Some announced, Some dest, Some opens =>
       let full := walk_root view in
@@ -73,9 +79,97 @@ Definition run_1102 (input impl : sx) : sx :=
       let opens_ok := forallb (fun o => let '(p, opened, same) := o in
                                         if announced_reg p then opened && same else negb opened) opens in
       let code := (if ok_stream then 0 else 1) + (if success then 0 else 2) + (if conv then 0 else 4) + (if opens_ok then 0 else 8) in
+      let shadow :=
+        match sx_list dec_pentry pt, dec_raws inc, dec_raws exc with
+        | Some tbl, Some ri, Some re' =>
+          match mk_cfg ri re' with
+          | Some c => in_late_shadow_domain (table_pmatch tbl) c view
+          | None => false
+          end
+        | _, _, _ => false
+        end in
+      (* walk and Open may only disagree (and a file may only arrive empty) in the late-shadow domain *)
+      let s := if shadow && ok_stream && success then [sig s_late_shadow] else [] in
       verdict impl impl (ok_stream && success && conv && opens_ok)
-              (SL (SN code :: (if success then converged_diag false [] src dest else [])))%N
+              (SL (s ++ SN code :: (if success then converged_diag false [] src dest else [])))%N
     | _, _, _, _ => v_malformed
     end
   | _, _ => v_malformed
+  end.
+
+(* kind 1103: what Send announces for a filtered source, and Open on every regular file.
+   input = (view include-raw exclude-raw maptable);
+   impl  = (#ffff) | (#0 inc exc ptable calls opens vverdict hverdict)   (harness/c11.go run1103).
+   Model = sender_view / filter_open / the two validators on the model's stream.
+   Specification, evaluated on what the IMPLEMENTATION reported:
+     S1 (filtered_stream_valid) the order validator and the hard-link validator (model of each on the
+        implementation's calls, AND the real ones) accept — required when the source is well-formed
+        and the map table never answers Exclude for a directory of the view;
+     S2 the calls are the declarative description: reset_spec of the naive reference
+        (filter_walk_is_naive_reference + reset_eq_spec) — judged when no path is in the late-shadow
+        domain and the L/* literals are regex-safe (the other cases are C10's known findings);
+     S3 (reported_file_can_be_opened / walk_open_agree) every announced regular file opens with
+        its bytes — judged outside the late-shadow domain; when the map table drops nothing,
+        every regular file that opens is announced — judged when additionally the L/* literals are
+        regex-safe; inside the late-shadow domain a disagreement carries the late-shadow signature. *)
+Definition dec_open3 (s : sx) : option (list N * N) :=
+  match s with SL [SB p; SN a] => Some (p, a) | _ => None end.
+
+Definition run_1103 (input impl : sx) : sx :=
+  match input with
+  | SL [v; inc; exc; mt] =>
+    match dec_view v, dec_raws inc, dec_raws exc, sx_list dec_mentry mt with
+    | Some view, Some incr_, Some excr, Some mtab =>
+      match impl with
+      | SL [SN 65535] =>
+        match mk_cfg incr_ excr with None => v_ok | Some _ => v_malformed end
+      | SL [SN 0; iinc; iexc; pt; calls; ops; vv; hv] =>
+        match sx_list dec_pentry pt, sx_list dec_stat calls, sx_list dec_open3 ops, mk_cfg incr_ excr with
+        | Some tbl, Some icalls, Some iopens, Some c =>
+          let pm := table_pmatch tbl in
+          let mf := table_map mtab in
+          let full := walk_root view in
+          let regs := filter (fun e : entry => mode_is_regular (st_mode (fst e))) full in
+          let sv := sender_view pm mf c view in
+          let model := SL [SN 0; enc_side (c_inc c); enc_side (c_exc c); enc_stats sv;
+                           SL (map (fun e : entry => SL [SB (st_path (fst e)); of_bool (filter_open pm c (st_path (fst e)))]) regs);
+                           of_optnat (run_validator (items sv)); of_optnat (hardlink_check sv)] in
+          let impl' := SL [SN 0; iinc; iexc; calls; ops; vv; hv] in
+          let src_ok := wf_source view && source_links_ok view in
+          let map_ok := forallb (fun e : entry => negb (st_is_dir (fst e))
+                           || match fst (mf (st_path (fst e)) (fst e)) with MExclude => false | _ => true end) full in
+          let keeps_all := forallb (fun e : entry => match fst (mf (st_path (fst e)) (fst e)) with MKeep => true | _ => false end) full in
+          let shadow := in_late_shadow_domain pm c view in
+          let dom := negb shadow && cfg_star_safe c in
+          let s1 := sx_eqb (of_optnat (run_validator (items icalls))) (SL [])
+                    && sx_eqb (of_optnat (hardlink_check icalls)) (SL [])
+                    && sx_eqb vv (SL []) && sx_eqb hv (SL []) in
+          let declarative := reset_spec (reference (keep_naive pm c) mf view) in
+          let s2 := sx_eqb (enc_stats declarative) calls in
+          let announced (p : list N) := existsb (fun s => bytes_eqb (st_path s) p) icalls in
+          (* S3a: announced => opens with its bytes (reported_file_can_be_opened: any matcher);
+             S3b: not announced => cannot be opened (walk_open_agree: map drops nothing, prefix
+             semantics); a file served with other bytes is never acceptable *)
+          let s3a := forallb (fun o => let '(p, a) := o in if announced p then N.eqb a 1 else negb (N.eqb a 2)) iopens
+                     && Nat.eqb (length iopens) (length regs) in
+          let s3b := forallb (fun o => let '(p, a) := o in announced p || N.eqb a 0) iopens in
+          let j1 := negb (src_ok && map_ok) || s1 in
+          let j2 := negb (src_ok && dom) || s2 in
+          let j3a := negb (src_ok && negb shadow) || s3a in
+          let j3b := negb (src_ok && dom && keeps_all) || s3b in
+          let code := (if j1 then 0 else 1) + (if j2 then 0 else 2) + (if j3a then 0 else 4) + (if j3b then 0 else 8) in
+          (* inside the late-shadow domain only the walk/Open pair is looked at, to attach the
+             signature of the known finding to a disagreement *)
+          if src_ok && shadow && negb (s3a && (negb keeps_all || s3b)) && j1
+          then verdict model impl' false (SL [sig s_late_shadow; SN 16])%N
+          else verdict model impl' (j1 && j2 && j3a && j3b)
+                       (SL [SN code; of_bool src_ok; of_bool map_ok; of_bool shadow; of_bool (cfg_star_safe c)])%N
+        | Some _, Some _, Some _, None => v_diff (SL [SN 65535])
+        | _, _, _, _ => v_malformed
+        end
+      | _ => v_malformed
+      end
+    | _, _, _, _ => v_malformed
+    end
+  | _ => v_malformed
   end.
